@@ -144,7 +144,7 @@ type Fields struct {
 const DescLen = 12
 
 func (f Fields) Desc() string {
-	return fmt.Sprintf("%d %d %s %s %s %s n%s %s %s %s %s %s", f.Version, f.Curve, hlib.B(f.IsCA), Ns(f.NotBefore),
+	return fmt.Sprintf("%d %d %s %s %s %s n%s %s %s %s %s %s", f.Version, uint32(int32(f.Curve)), hlib.B(f.IsCA), Ns(f.NotBefore),
 		Ns(f.NotAfter), dash(f.Issuer), hex.EncodeToString([]byte(f.Name)), PrefixesTok(f.Networks), PrefixesTok(f.Unsafe),
 		GroupsTok(f.Groups), hlib.Hex(f.PublicKey), hlib.Hex(f.Signature))
 }
@@ -169,7 +169,7 @@ func ParseDesc(a []string) Fields {
 	}
 	pub, _ := hlib.UnHex(a[10])
 	sig, _ := hlib.UnHex(a[11])
-	return Fields{Version: hlib.Atoi(a[0]), Curve: hlib.Atoi(a[1]), IsCA: a[2] == "1", NotBefore: TimeOf(a[3]), NotAfter: TimeOf(a[4]),
+	return Fields{Version: hlib.Atoi(a[0]), Curve: int(int32(uint32(hlib.Atou(a[1])))), IsCA: a[2] == "1", NotBefore: TimeOf(a[3]), NotAfter: TimeOf(a[4]),
 		Issuer: undash(a[5]), Name: string(name), Networks: ParsePrefixes(a[7]), Unsafe: ParsePrefixes(a[8]), Groups: ParseGroups(a[9]),
 		PublicKey: pub, Signature: sig}
 }
@@ -407,4 +407,43 @@ func MustRaw(c cert.Certificate) []byte {
 		panic(err)
 	}
 	return b
+}
+
+// InvalidKind names the rule of certificateV1/V2.validate that an error reports ("" if it is not one).
+func InvalidKind(err error) string {
+	var ip *cert.ErrInvalidCertificateProperties
+	msg := err.Error()
+	switch {
+	case errors.Is(err, cert.ErrInvalidPublicKey):
+		return "err:invalid:public-key"
+	case errors.As(err, &ip):
+		switch {
+		case strings.HasPrefix(msg, "non-CA certificate must contain at least 1 network"), strings.HasPrefix(msg, "non-CA certificates must contain exactly one network"):
+			return "err:invalid:no-networks"
+		case strings.HasPrefix(msg, "invalid network"):
+			return "err:invalid:invalid-network"
+		case strings.HasPrefix(msg, "non-CA certificates must not use the zero address"):
+			return "err:invalid:zero-address"
+		case strings.HasPrefix(msg, "4in6 networks are not allowed"):
+			return "err:invalid:4in6"
+		case strings.HasPrefix(msg, "certificate may not contain IPv6 networks"):
+			return "err:invalid:v1-ipv6"
+		case strings.HasPrefix(msg, "certificate may not contain IPv6 unsafe networks"):
+			return "err:invalid:v1-ipv6-unsafe"
+		case strings.HasPrefix(msg, "invalid unsafe network"):
+			return "err:invalid:invalid-unsafe"
+		case strings.HasPrefix(msg, "IPv6 unsafe networks require"):
+			return "err:invalid:unsafe-needs-v6"
+		case strings.HasPrefix(msg, "IPv4 unsafe networks require"):
+			return "err:invalid:unsafe-needs-v4"
+		case strings.HasPrefix(msg, "duplicate network detected"):
+			return "err:invalid:duplicate"
+		case strings.HasPrefix(msg, "name must be between"):
+			return "err:invalid:name"
+		case strings.HasPrefix(msg, "groups must not contain an empty name"):
+			return "err:invalid:empty-group"
+		}
+		return "err:invalid:other:" + strings.ReplaceAll(msg, " ", "_")
+	}
+	return ""
 }
